@@ -12,7 +12,7 @@ out="\n### 12.6 Independently written property-breaking changes (`/verif/seeded/
 for r,d,p,first,res in sorted(rows):
     out+=f"| {r} | `{d}` | {p} | {first} | {res.replace('|','/')} |\n"
 n=len(rows); c=sum(1 for x in rows if x[3]=='caught'); nc=sum(1 for x in rows if x[3]=='not caught')
-out+=f"\n{c} of {n} were caught by the checks as they stood when the change arrived. {n-c-nc} exposed a blind\nspot (yield granularity; an unasserted output line under faults; snapshot and rule-revision\nhistories; path spellings; files lost at discovery; rule shapes; re-layout edits) that was closed by\nwidening the simulated space or the oracle — never by special-casing the change — after which they\nare caught and the unchanged tree stays clean. {nc} are not caught: one deliberately (12.7), one because it stopped breaking its property when the\ndefect it had copied was repaired (12.3 row 8), three of round 10 that are outside what their\nproperty states (the order of `sg test` report lines; which of two equal captures a repeated\nvariable reports; one file named twice on a command line), and one of round 11 that needs the\nversion restarts of 12.7 — the reasons are in their rows.\n"
+out+=f"\n{c} of {n} were caught by the checks as they stood when the change arrived. {n-c-nc} exposed a blind\nspot (yield granularity; an unasserted output line under faults; snapshot and rule-revision\nhistories; path spellings; files lost at discovery; rule shapes; re-layout edits) that was closed by\nwidening the simulated space or the oracle — never by special-casing the change — after which they\nare caught and the unchanged tree stays clean. {nc} are not caught: one deliberately (12.7), one because it stopped breaking its property when the\ndefect it had copied was repaired (12.3 row 8), three of round 10 that are outside what their\nproperty states (the order of `sg test` report lines; which of two equal captures a repeated\nvariable reports; one file named twice on a command line), one of round 11 that needs the\nversion restarts of 12.7, and one of round 12 that needs more than 512 items in flight in worlds of\nat most 14 files (12.9) — the reasons are in their rows.\n"
 s=open('/verif/DESIGN.md').read()
 a=s.index('\n### 12.6'); 
 b=s.find('\n### 12.7')
